@@ -1,20 +1,573 @@
 package zz_verifsim
 
 import (
+	"fmt"
+
 	"github.com/relab/hotstuff"
+	"github.com/relab/hotstuff/internal/proto/clientpb"
+	"github.com/relab/hotstuff/security/crypto"
 )
 
-// adversary drives the scripted Byzantine replicas. (Filled in below; the hooks return true
-// when the adversary has taken over the sending of a message.)
+// adversary drives the scripted Byzantine replicas. A Byzantine replica is a real stack (so it
+// follows the protocol state and collects real certificates) whose outgoing traffic the adversary
+// may replace or supplement. It can only sign with its own key; everything else it uses are
+// signatures and certificates that Byzantine replicas have actually received or produced.
 type adversary struct {
-	w *World
+	w   *World
+	ctr uint64
+
+	qcs    []hotstuff.QuorumCert // certificates seen by Byzantine replicas
+	tcs    []hotstuff.TimeoutCert
+	aggs   []hotstuff.AggregateQC
+	votes  []hotstuff.PartialCert
+	touts  []hotstuff.TimeoutMsg
+	blocks []*hotstuff.Block // blocks crafted by the adversary
+	lies   map[hotstuff.Hash]*hotstuff.Block
 }
 
-func newAdversary(w *World) *adversary { return &adversary{w: w} }
+func newAdversary(w *World) *adversary {
+	a := &adversary{w: w, lies: map[hotstuff.Hash]*hotstuff.Block{}}
+	w.hooks.onHandle = append(w.hooks.onHandle, func(nd *Node, ev any) {
+		if nd.honest {
+			return
+		}
+		switch e := ev.(type) {
+		case hotstuff.ProposeMsg:
+			if e.Block != nil {
+				a.learnQC(e.Block.QuorumCert())
+			}
+			if e.AggregateQC != nil {
+				a.aggs = append(a.aggs, *e.AggregateQC)
+			}
+		case hotstuff.NewViewMsg:
+			a.learnSI(e.SyncInfo)
+		case hotstuff.TimeoutMsg:
+			a.learnSI(e.SyncInfo)
+			if len(a.touts) < 4096 {
+				a.touts = append(a.touts, e)
+			}
+		case hotstuff.VoteMsg:
+			if len(a.votes) < 4096 {
+				a.votes = append(a.votes, e.PartialCert)
+			}
+		}
+	})
+	return a
+}
 
-func (a *adversary) onPropose(nd *Node, p *hotstuff.ProposeMsg) bool             { return false }
-func (a *adversary) onTimeout(nd *Node, m *hotstuff.TimeoutMsg) bool              { return false }
-func (a *adversary) onVote(nd *Node, to hotstuff.ID, c *hotstuff.PartialCert) bool { return false }
-func (a *adversary) onNewView(nd *Node, to hotstuff.ID, si *hotstuff.SyncInfo) bool { return false }
-func (a *adversary) onFetch(peer, asker *Node, h hotstuff.Hash) *hotstuff.Block     { return nil }
-func (a *adversary) inject(in Inject)                                              {}
+func (a *adversary) learnQC(qc hotstuff.QuorumCert) {
+	if qc.Signature() != nil && len(a.qcs) < 4096 {
+		a.qcs = append(a.qcs, qc)
+	}
+}
+
+func (a *adversary) learnSI(si hotstuff.SyncInfo) {
+	if qc, ok := si.QC(); ok {
+		a.learnQC(qc)
+	}
+	if tc, ok := si.TC(); ok && tc.Signature() != nil && len(a.tcs) < 4096 {
+		a.tcs = append(a.tcs, tc)
+	}
+	if agg, ok := si.AggQC(); ok && len(a.aggs) < 4096 {
+		a.aggs = append(a.aggs, agg)
+	}
+}
+
+// roll draws the next adversarial choice; all choices come from one counter-keyed stream.
+func (a *adversary) roll() uint64 {
+	a.ctr++
+	return mix(a.w.plan.Inner, 0x616476, a.ctr)
+}
+
+func (a *adversary) chance(p float64) bool { return unit(a.roll()) < p }
+func (a *adversary) intn(n int) int {
+	if n <= 0 {
+		return 0
+	}
+	return int(a.roll() % uint64(n))
+}
+
+func (a *adversary) acts(nd *Node) []string {
+	if nd.byz == nil || nd.byz.Kind != "script" {
+		return nil
+	}
+	return nd.byz.Acts
+}
+
+func has(acts []string, name string) bool {
+	for _, x := range acts {
+		if x == name {
+			return true
+		}
+	}
+	return false
+}
+
+func (a *adversary) fired(name string) { a.w.fault("adv:" + name) }
+
+// sendTo sends a crafted (or original) message from Byzantine replica nd to one replica ID.
+func (a *adversary) sendTo(nd *Node, to hotstuff.ID, kind string, val any) {
+	if to == nd.id || int(to) < 1 || int(to) > a.w.plan.N {
+		return
+	}
+	for _, dst := range a.w.byID[to] {
+		m := &Msg{from: nd, fromID: nd.id, to: dst, kind: kind, val: val, forged: true}
+		a.w.transmit(m, nd.addr)
+	}
+}
+
+func (a *adversary) others(nd *Node) []hotstuff.ID {
+	var ids []hotstuff.ID
+	for id := 1; id <= a.w.plan.N; id++ {
+		if hotstuff.ID(id) != nd.id {
+			ids = append(ids, hotstuff.ID(id))
+		}
+	}
+	return ids
+}
+
+// ownSig signs msg with the Byzantine replica's own key (bypassing the monitored seam: the
+// ground-truth log only records honest signers).
+func (a *adversary) ownSig(nd *Node, msg []byte) hotstuff.QuorumSignature {
+	sig, err := nd.raw.Sign(msg)
+	if err != nil {
+		return nil
+	}
+	return sig
+}
+
+// repeatSig builds a multi-signature that repeats one replica's signature k times.
+func repeatSig(sig hotstuff.QuorumSignature, k int) hotstuff.QuorumSignature {
+	switch s := sig.(type) {
+	case crypto.Multi[*crypto.EDDSASignature]:
+		if len(s) == 0 {
+			return nil
+		}
+		out := make(crypto.Multi[*crypto.EDDSASignature], 0, k)
+		for i := 0; i < k; i++ {
+			out = append(out, s[0])
+		}
+		return out
+	case crypto.Multi[*crypto.ECDSASignature]:
+		if len(s) == 0 {
+			return nil
+		}
+		out := make(crypto.Multi[*crypto.ECDSASignature], 0, k)
+		for i := 0; i < k; i++ {
+			out = append(out, s[0])
+		}
+		return out
+	}
+	return nil
+}
+
+// relabelSig keeps the signature bytes but claims other signer IDs (shifted by one).
+func relabelSig(sig hotstuff.QuorumSignature, n int) hotstuff.QuorumSignature {
+	switch s := sig.(type) {
+	case crypto.Multi[*crypto.EDDSASignature]:
+		out := make(crypto.Multi[*crypto.EDDSASignature], 0, len(s))
+		for _, e := range s {
+			out = append(out, crypto.RestoreEDDSASignature(e.ToBytes(), hotstuff.ID(int(e.Signer())%n+1)))
+		}
+		return out
+	case crypto.Multi[*crypto.ECDSASignature]:
+		out := make(crypto.Multi[*crypto.ECDSASignature], 0, len(s))
+		for _, e := range s {
+			out = append(out, crypto.RestoreECDSASignature(e.ToBytes(), hotstuff.ID(int(e.Signer())%n+1)))
+		}
+		return out
+	}
+	return nil
+}
+
+// truncSig drops the last signer of a multi-signature.
+func truncSig(sig hotstuff.QuorumSignature, drop int) hotstuff.QuorumSignature {
+	switch s := sig.(type) {
+	case crypto.Multi[*crypto.EDDSASignature]:
+		if len(s) <= drop {
+			return nil
+		}
+		return s[:len(s)-drop]
+	case crypto.Multi[*crypto.ECDSASignature]:
+		if len(s) <= drop {
+			return nil
+		}
+		return s[:len(s)-drop]
+	}
+	return nil
+}
+
+func emptySig(scheme string) hotstuff.QuorumSignature {
+	switch scheme {
+	case crypto.NameEDDSA:
+		return crypto.Multi[*crypto.EDDSASignature]{}
+	case crypto.NameECDSA:
+		return crypto.Multi[*crypto.ECDSASignature]{}
+	case crypto.NameBLS12:
+		return &crypto.BLS12AggregateSignature{} // identity point, no participants
+	}
+	return nil
+}
+
+// forgeQC returns a certificate that no quorum backs, built the way the chosen mutation says.
+func (a *adversary) forgeQC(nd *Node, kind string, view hotstuff.View) (hotstuff.QuorumCert, bool) {
+	w := a.w
+	q := w.orc.q
+	switch kind {
+	case "genesisview":
+		return hotstuff.NewQuorumCert(nil, view+hotstuff.View(a.intn(3)), hotstuff.GetGenesis().Hash()), true
+	case "dupsigner":
+		// certify a block nobody voted for with one's own signature repeated
+		b := a.craftBlock(nd, view)
+		if b == nil {
+			return hotstuff.QuorumCert{}, false
+		}
+		sig := repeatSig(a.ownSig(nd, b.ToBytes()), q)
+		if sig == nil {
+			return hotstuff.QuorumCert{}, false
+		}
+		return hotstuff.NewQuorumCert(sig, b.View(), b.Hash()), true
+	case "nosig":
+		b := a.craftBlock(nd, view)
+		if b == nil {
+			return hotstuff.QuorumCert{}, false
+		}
+		if a.chance(0.5) {
+			return hotstuff.NewQuorumCert(nil, b.View(), b.Hash()), true
+		}
+		return hotstuff.NewQuorumCert(emptySig(w.plan.Crypto), b.View(), b.Hash()), true
+	}
+	if len(a.qcs) == 0 {
+		return hotstuff.QuorumCert{}, false
+	}
+	base := a.qcs[len(a.qcs)-1-a.intn(min(len(a.qcs), 4))]
+	switch kind {
+	case "relabel":
+		return hotstuff.NewQuorumCert(base.Signature(), base.View()+hotstuff.View(1+a.intn(12)), base.BlockHash()), true
+	case "subquorum":
+		if sig := truncSig(base.Signature(), 1+base.Signature().Participants().Len()-q); sig != nil {
+			return hotstuff.NewQuorumCert(sig, base.View(), base.BlockHash()), true
+		}
+	case "swapids":
+		if sig := relabelSig(base.Signature(), w.plan.N); sig != nil {
+			return hotstuff.NewQuorumCert(sig, base.View(), base.BlockHash()), true
+		}
+	case "wrongblock":
+		// a real quorum signature attached to another block
+		b := a.craftBlock(nd, view)
+		if b != nil {
+			return hotstuff.NewQuorumCert(base.Signature(), b.View(), b.Hash()), true
+		}
+	}
+	return hotstuff.QuorumCert{}, false
+}
+
+// craftBlock makes a block that the honest protocol never produced: it extends some known block.
+func (a *adversary) craftBlock(nd *Node, view hotstuff.View) *hotstuff.Block {
+	w := a.w
+	parent := w.reg.order[len(w.reg.order)-1-a.intn(min(len(w.reg.order), 5))].b
+	batch := &clientpb.Batch{Commands: []*clientpb.Command{{ClientID: 7000 + uint32(nd.id), SequenceNumber: a.ctr, Data: []byte(fmt.Sprintf("adv%d", a.ctr))}}}
+	b := hotstuff.NewBlock(parent.Hash(), parent.QuorumCert(), batch, view, nd.id)
+	w.reg.add(b, nd)
+	a.blocks = append(a.blocks, b)
+	return b
+}
+
+var qcForgeries = []string{"dupsigner", "relabel", "subquorum", "wrongblock", "genesisview", "swapids", "nosig"}
+
+func (a *adversary) pickForgery(acts []string) string {
+	var have []string
+	for _, f := range qcForgeries {
+		if has(acts, f) {
+			have = append(have, f)
+		}
+	}
+	if len(have) == 0 {
+		return ""
+	}
+	return have[a.intn(len(have))]
+}
+
+// ---- hooks on the Byzantine replica's outgoing traffic ---------------------------------------------
+
+func (a *adversary) onPropose(nd *Node, p *hotstuff.ProposeMsg) bool {
+	acts := a.acts(nd)
+	if acts == nil || !a.chance(nd.byz.Rate) {
+		return false
+	}
+	w := a.w
+	b := p.Block
+	switch {
+	case has(acts, "equivocate") && a.chance(0.6):
+		// two blocks for one view, each to a part of the cluster
+		batch := &clientpb.Batch{Commands: []*clientpb.Command{{ClientID: 7000 + uint32(nd.id), SequenceNumber: a.ctr, Data: []byte("eq")}}}
+		b2 := hotstuff.NewBlock(b.Parent(), b.QuorumCert(), batch, b.View(), nd.id)
+		w.reg.add(b2, nd)
+		p2 := hotstuff.ProposeMsg{ID: nd.id, Block: b2, AggregateQC: p.AggregateQC}
+		for _, id := range a.others(nd) {
+			if a.chance(0.5) {
+				a.sendTo(nd, id, "propose", *p)
+			} else {
+				a.sendTo(nd, id, "propose", p2)
+			}
+			if a.chance(0.15) {
+				a.sendTo(nd, id, "propose", p2)
+			}
+		}
+		a.fired("equivocate")
+		return true
+	case has(acts, "badparent") && a.chance(0.6):
+		// the parent pointer disagrees with the certified block
+		other := w.reg.order[a.intn(len(w.reg.order))].b
+		if other.Hash() == b.QuorumCert().BlockHash() {
+			return false
+		}
+		b2 := hotstuff.NewBlock(other.Hash(), b.QuorumCert(), b.Commands(), b.View(), nd.id)
+		w.reg.add(b2, nd)
+		for _, id := range a.others(nd) {
+			a.sendTo(nd, id, "propose", hotstuff.ProposeMsg{ID: nd.id, Block: b2, AggregateQC: p.AggregateQC})
+		}
+		a.fired("badparent")
+		return true
+	case has(acts, "sameview") && a.chance(0.6):
+		// a block that does not move past the view of the block it certifies
+		qcb := w.reg.get(b.QuorumCert().BlockHash())
+		if qcb == nil || qcb.View() == 0 {
+			return false
+		}
+		b2 := hotstuff.NewBlock(b.Parent(), b.QuorumCert(), b.Commands(), qcb.View(), nd.id)
+		w.reg.add(b2, nd)
+		for _, id := range a.others(nd) {
+			a.sendTo(nd, id, "propose", hotstuff.ProposeMsg{ID: nd.id, Block: b2})
+		}
+		a.fired("sameview")
+		return true
+	}
+	if f := a.pickForgery(acts); f != "" && a.chance(0.7) {
+		// a proposal justified by a forged certificate
+		qc, ok := a.forgeQC(nd, f, b.View()-1)
+		if !ok {
+			return false
+		}
+		b2 := hotstuff.NewBlock(qc.BlockHash(), qc, b.Commands(), b.View(), nd.id)
+		w.reg.add(b2, nd)
+		for _, id := range a.others(nd) {
+			a.sendTo(nd, id, "propose", hotstuff.ProposeMsg{ID: nd.id, Block: b2, AggregateQC: p.AggregateQC})
+		}
+		a.fired("forged-qc-proposal:" + f)
+		return true
+	}
+	return false
+}
+
+func (a *adversary) onTimeout(nd *Node, m *hotstuff.TimeoutMsg) bool {
+	acts := a.acts(nd)
+	if acts == nil || !a.chance(nd.byz.Rate) {
+		return false
+	}
+	if has(acts, "futuretimeout") && a.chance(0.7) {
+		// correctly signed timeouts for views the replica is not in
+		for k := 0; k < 1+a.intn(3); k++ {
+			v := m.View + hotstuff.View(1+a.intn(20))
+			fm := hotstuff.TimeoutMsg{ID: nd.id, View: v, SyncInfo: m.SyncInfo, ViewSignature: a.ownSig(nd, v.ToBytes())}
+			if m.MsgSignature != nil {
+				fm.MsgSignature = a.ownSig(nd, fm.ToBytes())
+			}
+			for _, id := range a.others(nd) {
+				a.sendTo(nd, id, "timeout", fm)
+			}
+		}
+		a.fired("futuretimeout")
+	}
+	if has(acts, "badtimeoutsig") && a.chance(0.7) {
+		fm := *m
+		switch a.intn(4) {
+		case 0: // signature over another view
+			fm.ViewSignature = a.ownSig(nd, (m.View + 1).ToBytes())
+		case 1: // somebody else's signature under one's own name
+			if len(a.touts) > 0 {
+				fm.ViewSignature = a.touts[a.intn(len(a.touts))].ViewSignature
+			}
+		case 2: // no signers at all
+			fm.ViewSignature = emptySig(a.w.plan.Crypto)
+		case 3: // message signature over something else
+			if m.MsgSignature != nil {
+				fm.MsgSignature = a.ownSig(nd, []byte("not the timeout message"))
+			} else {
+				fm.ViewSignature = a.ownSig(nd, []byte("garbage!"))
+			}
+		}
+		for _, id := range a.others(nd) {
+			a.sendTo(nd, id, "timeout", fm)
+		}
+		a.fired("badtimeoutsig")
+		return true
+	}
+	if f := a.pickForgery(acts); f != "" && a.chance(0.5) {
+		// a timeout whose sync info carries a forged certificate
+		if qc, ok := a.forgeQC(nd, f, m.View); ok {
+			fm := *m
+			si := hotstuff.NewSyncInfoWith(qc)
+			fm.SyncInfo = si
+			if m.MsgSignature != nil {
+				fm.MsgSignature = a.ownSig(nd, fm.ToBytes())
+			}
+			for _, id := range a.others(nd) {
+				a.sendTo(nd, id, "timeout", fm)
+			}
+			a.fired("forged-qc-timeout:" + f)
+			return true
+		}
+	}
+	if has(acts, "staleTC") && len(a.tcs) > 0 && a.chance(0.5) {
+		// replay an old timeout certificate, or one relabelled to a later view
+		tc := a.tcs[a.intn(len(a.tcs))]
+		if a.chance(0.5) {
+			tc = hotstuff.NewTimeoutCert(tc.Signature(), tc.View()+hotstuff.View(1+a.intn(10)))
+		}
+		for _, id := range a.others(nd) {
+			a.sendTo(nd, id, "newview", hotstuff.NewViewMsg{ID: nd.id, SyncInfo: hotstuff.NewSyncInfoWith(tc), FromNetwork: true})
+		}
+		a.fired("staleTC")
+	}
+	return false
+}
+
+func (a *adversary) onVote(nd *Node, to hotstuff.ID, c *hotstuff.PartialCert) bool {
+	acts := a.acts(nd)
+	if acts == nil || !a.chance(nd.byz.Rate) {
+		return false
+	}
+	w := a.w
+	switch {
+	case has(acts, "dupvote") && a.chance(0.5):
+		for i := 0; i < 2+a.intn(3); i++ {
+			a.sendTo(nd, to, "vote", hotstuff.VoteMsg{ID: nd.id, PartialCert: *c})
+		}
+		a.fired("dupvote")
+		return true
+	case has(acts, "multivote") && a.chance(0.6):
+		// a vote whose signature object names two signers (its own twice, or its own plus a replayed one)
+		var sig hotstuff.QuorumSignature
+		if a.chance(0.5) || len(a.votes) == 0 {
+			sig = repeatSig(c.Signature(), 2)
+		} else {
+			other := a.votes[a.intn(len(a.votes))]
+			if comb, err := nd.raw.Combine(c.Signature(), other.Signature()); err == nil {
+				sig = comb
+			}
+		}
+		if sig == nil {
+			return false
+		}
+		a.sendTo(nd, to, "vote", hotstuff.VoteMsg{ID: nd.id, PartialCert: hotstuff.NewPartialCert(sig, c.BlockHash())})
+		a.fired("multivote")
+		return true
+	case has(acts, "zerovote") && a.chance(0.6):
+		a.sendTo(nd, to, "vote", hotstuff.VoteMsg{ID: nd.id, PartialCert: hotstuff.NewPartialCert(emptySig(w.plan.Crypto), c.BlockHash())})
+		a.fired("zerovote")
+		return true
+	case has(acts, "unknownvote") && a.chance(0.5):
+		var h hotstuff.Hash
+		h[0], h[1] = byte(a.roll()), byte(a.roll())
+		a.sendTo(nd, to, "vote", hotstuff.VoteMsg{ID: nd.id, PartialCert: hotstuff.NewPartialCert(c.Signature(), h)})
+		a.sendTo(nd, to, "vote", hotstuff.VoteMsg{ID: nd.id, PartialCert: *c})
+		a.fired("unknownvote")
+		return true
+	case has(acts, "strayvote") && a.chance(0.5):
+		for _, id := range a.others(nd) {
+			a.sendTo(nd, id, "vote", hotstuff.VoteMsg{ID: nd.id, PartialCert: *c})
+		}
+		a.fired("strayvote")
+		return true
+	case has(acts, "replay") && len(a.votes) > 0 && a.chance(0.5):
+		// an old vote of somebody else, re-sent under one's own transport identity
+		a.sendTo(nd, to, "vote", hotstuff.VoteMsg{ID: nd.id, PartialCert: a.votes[a.intn(len(a.votes))]})
+		a.sendTo(nd, to, "vote", hotstuff.VoteMsg{ID: nd.id, PartialCert: *c})
+		a.fired("replay-vote")
+		return true
+	}
+	return false
+}
+
+func (a *adversary) onNewView(nd *Node, to hotstuff.ID, si *hotstuff.SyncInfo) bool {
+	acts := a.acts(nd)
+	if acts == nil || !a.chance(nd.byz.Rate) {
+		return false
+	}
+	if f := a.pickForgery(acts); f != "" && a.chance(0.7) {
+		if qc, ok := a.forgeQC(nd, f, nd.states.View()); ok {
+			fsi := hotstuff.NewSyncInfoWith(qc)
+			targets := []hotstuff.ID{to}
+			if a.chance(0.5) {
+				targets = a.others(nd)
+			}
+			for _, id := range targets {
+				a.sendTo(nd, id, "newview", hotstuff.NewViewMsg{ID: nd.id, SyncInfo: fsi, FromNetwork: true})
+			}
+			a.fired("forged-qc-newview:" + f)
+			return true
+		}
+	}
+	if has(acts, "aggreplay") && len(a.aggs) > 0 && a.chance(0.7) {
+		// an aggregate certificate seen earlier, replayed as is or with its view or one per-signer QC altered
+		agg := a.aggs[a.intn(len(a.aggs))]
+		switch a.intn(3) {
+		case 1:
+			agg = hotstuff.NewAggregateQC(agg.QCs(), agg.Sig(), agg.View()+hotstuff.View(1+a.intn(8)))
+		case 2:
+			qcs := map[hotstuff.ID]hotstuff.QuorumCert{}
+			for id, qc := range agg.QCs() {
+				qcs[id] = qc
+			}
+			if len(a.qcs) > 0 {
+				for id := 1; id <= a.w.plan.N; id++ { // lowest signer: map order must not decide
+					if _, ok := qcs[hotstuff.ID(id)]; ok {
+						qcs[hotstuff.ID(id)] = a.qcs[a.intn(len(a.qcs))]
+						break
+					}
+				}
+			}
+			agg = hotstuff.NewAggregateQC(qcs, agg.Sig(), agg.View())
+		}
+		si := hotstuff.NewSyncInfoWith(agg)
+		for _, id := range a.others(nd) {
+			a.sendTo(nd, id, "newview", hotstuff.NewViewMsg{ID: nd.id, SyncInfo: si, FromNetwork: true})
+		}
+		a.fired("aggreplay")
+	}
+	if has(acts, "replay") && len(a.qcs) > 0 && a.chance(0.4) {
+		old := a.qcs[a.intn(len(a.qcs))]
+		for _, id := range a.others(nd) {
+			a.sendTo(nd, id, "newview", hotstuff.NewViewMsg{ID: nd.id, SyncInfo: hotstuff.NewSyncInfoWith(old), FromNetwork: true})
+		}
+		a.fired("replay-qc")
+	}
+	return false
+}
+
+// onFetch lets a Byzantine peer answer a block request with a block of its own choosing.
+func (a *adversary) onFetch(peer, asker *Node, h hotstuff.Hash) *hotstuff.Block {
+	acts := a.acts(peer)
+	if acts == nil || !has(acts, "liefetch") || !a.chance(peer.byz.Rate) {
+		return nil
+	}
+	if lie, ok := a.lies[h]; ok {
+		return lie
+	}
+	// a look-alike: same view and parent if the real block is known, different content
+	real := a.w.reg.get(h)
+	var lie *hotstuff.Block
+	if real != nil {
+		lie = hotstuff.NewBlock(real.Parent(), real.QuorumCert(), &clientpb.Batch{Commands: []*clientpb.Command{{ClientID: 7000, SequenceNumber: a.ctr, Data: []byte("lie")}}}, real.View(), real.Proposer())
+	} else {
+		lie = a.craftBlock(peer, peer.states.View())
+	}
+	a.w.reg.add(lie, peer)
+	a.lies[h] = lie
+	return lie
+}
+
+func (a *adversary) inject(in Inject) { a.injectWire(in) }
+
+func (a *adversary) injectWire(in Inject) {}
